@@ -418,6 +418,46 @@ def run(ctx):
     ctx.notes["engine"] = estats
     ctx.log("engine: %s" % json.dumps(estats))
 
+    # ---- (1d) outcome classification: process_receive_result / invoke_init vs Contract/V1Classify.v
+    ncl = 150 if ctx.quick else 1500
+    rc, out = c.run_bin(binp, ["classify", ctx.seed, ncl], timeout=1800)
+    crs = [json.loads(l) for l in out.splitlines() if l.startswith("{")]
+    cstat = {}
+    for r in crs:
+        if "classify_stats" in r:
+            cstat = r["classify_stats"]
+    nrej = sum(1 for r in crs if "cls_error" in r)
+    if rc != 0 or not cstat or nrej:
+        ctx.violation({"layer": "classification harness", "output": out[-1500:], "rejected_contracts": nrej},
+                      "the classification harness failed (or the engine rejected a generated contract)", no_input=True)
+    crows = [r for r in crs if "cls" in r]
+    if okx and crows:
+        answers = run_model(runner, [r["cls"] for r in crows], 2)
+        ncls = 0
+        byvar, byfinal = {}, {}
+        for r, ans in zip(crows, answers):
+            byvar[r["variant"]] = byvar.get(r["variant"], 0) + 1
+            last = r["impl"].split(" ; ")[-1][:1]
+            byfinal[last] = byfinal.get(last, 0) + 1
+            if ans.strip() != r["impl"].strip():
+                ncls += 1
+                if ncls <= 6:
+                    ctx.violation({"layer": "v1 engine vs Contract/V1Classify.v (process_receive_result / invoke_init)", "scenario": r["cls"],
+                                   "sections": r.get("sections"), "variant": r["variant"], "model_results": ans, "impl_results": r["impl"],
+                                   "format": "I rem changed logs kind | S rem changed logs return_value | R reason rem return_value | T rem | O | E invalid-return-code; "
+                                             "sections: cost logs output state_changed end(i:kind:energy kept back at resume | r:code | t | l)",
+                                   "how_to_replay": ".cache/target/release/c13 classify %s %s  (contract %s, variant %s)" % (ctx.seed, ncl, r.get("index"), r["variant"])},
+                                  "classification: model %s, implementation %s (%s)" % (ans[:120], r["impl"][:120], r["cls"][:120]))
+        cstat["runs_compared_with_model"] = len(crows)
+        cstat["mismatches"] = ncls
+        cstat["by_variant"] = byvar
+        cstat["by_final_result_S_R_T_O_E"] = byfinal
+        ctx.cov["traces_validated_against_impl"] += len(crows)
+        ctx.cov["evaluations"] += len(crows)
+        ctx.cov["samples"].append("classification: %s => %s" % (crows[len(crows) // 2]["cls"][:160], crows[len(crows) // 2]["impl"][:160]))
+    ctx.notes["classification"] = cstat
+    ctx.log("classification: %s" % json.dumps(cstat))
+
     # ---- observation: over-long LEB128 in artifacts
     rc, out = c.run_bin(binp, ["overlong"], timeout=60)
     try:
